@@ -24,4 +24,12 @@ def queries(tier):
                     unwind={"memchr": 6, "verif_pm_add": 34},
                     bounds="option line 'k' + %d blank(s) + '=' + %d blank(s) + %d value character (symbolic a/b; second blank space or tab) + newline through mpt_parse_format_pre: name and value read back" % (nb, na, vl),
                     outside="longer names/values at the format layer (value scanner: value_plain/value_quoted), sections, nesting, other styles, tree building", timeout=300, **COMMON))
+    for seq in (((0, 1, 0), (1, 1, 0)) if tier == "quick" else [(x, y, z) for x in (0, 1) for y in (0, 1) for z in (0, 1)]):
+      qs.append(Q("node_append_order_%d%d%d" % seq, "C09/append.c", harness_defines={"NAMES": "{%d,%d,%d}" % seq},
+                units=["mptcore/parse/node_append.c", "mptcore/config/path_last.c"] + ["mptcore/node/%s.c" % f for f in "node_new node_destroy node_clear node_unlink gnode_after gnode_before gnode_pos node_locate".split()] + ["mptcore/misc/identifier.c"],
+                unwind_default=6, flags=["--memory-leak-check", "--max-field-sensitivity-array-size", "200"],
+                fp=[(r"getnode", ["verif_gnode_pos_u", "node_locate"]), (r"_vptr\)\.unref", ["h_none"])], stubs=["libc.c", "libc_loops.c"],
+                unwind={"memcpy": 20, "memset": 60, "memmove": 20, "strlen": 4},
+                bounds="three option events with the name sequence %s (0 = a, 1 = b; driver-side case split) appended under one section node" % (seq,),
+                outside="values (mpt_meta_new), nested sections, more than three events"))
     return qs
